@@ -267,11 +267,14 @@ fn separator(style: u64, rng: &mut Rng) -> String
 		4 =>
 		{
 			let w = pk(rng, &COMMENT_WORDS);
-			match rng.below(4)
+			match rng.below(7)
 			{
 				0 => format!("/*{}*/", w),
 				1 => format!("/* {} /* {} */ \n */", w, pk(rng, &COMMENT_WORDS)),
 				2 => format!("/*/* /**/ {}*/\r\n*/", w),
+				3 => format!("/* {} /*/ {} */ c */", w, pk(rng, &COMMENT_WORDS)),      // `/*/`: an opener followed by a slash, not a closer
+				4 => format!("/*/*/ x*/*/"),
+				5 => format!("/* a *//* {} */", w),
 				_ => format!("/***/"),
 			}
 		},
@@ -444,6 +447,17 @@ fn stream_trees(g: &mut Gen, thorough: bool, rng: &mut Rng)
 		let bits: Vec<bool> = if k % 3 == 0 { (0..rng.below(12)).map(|_| rng.chance(1, 3)).collect() } else { vec![] };
 		g.emit_stmts(&stmts, &bits, style, rng);
 	}
+	// long texts through one Parser object (anything that accumulates per statement, call or parenthesis would show):
+	// 1200 statements with function calls and redundant parentheses; one statement with 1100 calls
+	for style in [1u64, 4]
+	{
+		let call = |k: usize| Argument::Function{name: Arcob::Arced(format!("f{}", k % 5).into()), args: vec![konst(k as i64), ident("r0")]};
+		let stmts: Vec<Stmt> = (0..1200).map(|k| Stmt::Ins("tab".into(), vec![call(k), mk_bin(2, mk_bin(0, konst(1), konst(2)), konst(3))])).collect();
+		let bits: Vec<bool> = (0..2400).map(|i| i % 3 == 0).collect();
+		g.emit_stmts(&stmts, &bits, style, rng);
+		let many: Vec<Arg> = (0..1100).map(|k| call(k)).chain(std::iter::once(mk_bin(2, mk_bin(0, konst(1), konst(2)), konst(3)))).collect();
+		g.emit_stmts(&[Stmt::Ins("tab".into(), many)], &[true, false, true], style, rng);
+	}
 	for nargs in 0..5 { for kind in 0..3 { for style in 0..6
 	{
 		let args: Vec<Arg> = (0..nargs).map(|i| if i % 2 == 0 { ident(IDENTS[i]) } else { konst(i as i64) }).collect();
@@ -481,6 +495,24 @@ fn stream_total(g: &mut Gen, thorough: bool, maxlen: usize, rng: &mut Rng)
 		b"a b )", b".d a )", b".d a ]", b"a 1 }x;", b"a b ) c;", b"a f(1 ] ;", b"a [1);", b"a {1];", b"a (1};", b"a\n '", b"a 1\n,\n'", b"a (\n'", b"a f\n(1);", b"a f/*c*/(1);", b"a 1(2);", b"a \"s\"(1);"]
 	{
 		g.emit(format!("P {}", hex_bytes(txt)));
+	}
+	// a byte order mark (the tokenizer rejects it: so must the parser), alone and in front of valid text
+	for txt in [&b"\xef\xbb\xbf"[..], b"\xef\xbb\xbfnop;", b"\xef\xbb\xbf a 1;", b"a 1;\xef\xbb\xbf", b"a \xef\xbb\xbf 1;", b"\xef\xbb", b"\xfe\xff a;", b"\xff\xfe a;"] { g.emit(format!("P {}", hex_bytes(txt))); }
+	// one Parser object over a long text: state that accumulates per statement / per call / per parenthesis would show
+	{
+		let mut long = String::new();
+		for k in 0..1100 { long.push_str(&format!("tab f{}(), g(r0, {}), (1 + 2) * 3;\n", k % 7, k)); }
+		g.emit(format!("P {}", hex_bytes(long.as_bytes())));
+		let mut calls = String::from("tab ");
+		for k in 0..1100 { calls.push_str(&format!("f({}), ", k)); }
+		calls.push_str("(1 + 2) * 3;");
+		g.emit(format!("P {}", hex_bytes(calls.as_bytes())));
+		let mut data = String::new();
+		for k in 0..3000 { data.push_str(&format!(".du32 at(base, {}) + (1 + 2) * 3;\n", k)); }
+		g.emit(format!("P {}", hex_bytes(data.as_bytes())));
+		let mut br = String::new();
+		for k in 0..1500 { br.push_str(&format!("x [{}], {{{}}}, [(1)];\n", k, k)); }
+		g.emit(format!("P {}", hex_bytes(br.as_bytes())));
 	}
 	let mut idx = vec![0usize; 0];
 	for len in 0..=maxlen
